@@ -640,6 +640,49 @@ def real_clock_and_file_urls(ctx, workdir):
         if second is not None:
             ctx.fail("an entry past its duration was served (looking at it earlier kept it alive)",
                      {"class": cls.__name__, "duration_s": 2, "age_s": round(time.time() - t0, 2)}, repr(second)[:80], None)
+    # a folder inside the cache folder whose name starts like an entry: clearing (explicit, or on a foreign version
+    # stamp) leaves it alone and does not raise
+    for cls in (suds.cache.ObjectCache, suds.cache.DocumentCache):
+        d = tempfile.mkdtemp(dir=workdir)
+        os.makedirs(os.path.join(d, "suds-documents"))
+        ctx.case(("subfolder-named-like-entries", cls.__name__), True)
+        try:
+            c = cls(location=d)
+            c.put("k", {"a": 1} if cls is suds.cache.ObjectCache else mk_value("document", 1))
+            c.clear()
+            after_clear = c.get("k")
+            c.put("k", {"a": 1} if cls is suds.cache.ObjectCache else mk_value("document", 1))
+            with open(os.path.join(d, "version"), "w") as f:
+                f.write("0.0-foreign")
+            after_foreign = cls(location=d).get("k")
+            facts = [after_clear, after_foreign, os.path.isdir(os.path.join(d, "suds-documents"))]
+        except Exception as e:
+            facts = repr(e)
+        if facts != [None, None, True]:
+            ctx.fail("a folder named like an entry inside the cache folder disturbs clearing", {"class": cls.__name__},
+                     repr(facts)[:200], [None, None, True])
+    # a WSDL kept past the duration of the cache it was given is not served: the document changed meanwhile
+    d = tempfile.mkdtemp(dir=workdir)
+
+    def wsdl_named(opname):
+        return wsdlkit.wsdl_doc('<xsd:element name="%s"><xsd:complexType><xsd:sequence/></xsd:complexType></xsd:element>'
+                                % opname, opname, None, op=opname)
+    import suds.store
+    store = suds.store.DocumentStore()
+    names = []
+    ctx.case(("policy1-document-cache-duration",), True)
+    try:
+        for opname, pause in (("first", 1.3), ("second", 0)):
+            store.update({"svc.wsdl": wsdl_named(opname)})
+            c = suds.client.Client("suds://svc.wsdl", documentStore=store, cachingpolicy=1,
+                                   cache=suds.cache.DocumentCache(location=d, seconds=1), nosend=True)
+            names.append([m[0] for m in c.sd[0].ports[0][1]])
+            time.sleep(pause)
+    except Exception as e:
+        names.append(repr(e))
+    if names != [["first"], ["second"]]:
+        ctx.fail("a WSDL older than the duration of the configured cache was served", {"cachingpolicy": 1,
+                 "cache": "DocumentCache(seconds=1)"}, names, [["first"], ["second"]])
     d = tempfile.mkdtemp(dir=workdir)
     oc = suds.cache.ObjectCache(location=d)
     texts = [Text("a<b", lang="en", escaped=False), Text("&lt;x&gt;", escaped=True), Text("plain"), Text("fr", lang="fr", escaped=True)]
